@@ -465,6 +465,11 @@ func driveIgnore(i int, bin, dir, pa, pb string, seed int64) []obj {
 			full = append(full, k)
 		}
 		subsets = [][]int{{}, full, {0}, {n - 1}}
+		if n <= 10 { // every singleton: ignoring one entry removes that entry and no other
+			for k := 1; k < n-1; k++ {
+				subsets = append(subsets, []int{k})
+			}
+		}
 		x := uint64(seed)*2862933555777941757 + uint64(i)*3037000493 + 1
 		for r := 0; r < 4; r++ {
 			s := []int{}
